@@ -32,6 +32,8 @@ HARNESSES += [
     Q('Q_mpsc_2', 'h_mpsc.c', ['_dispatch_queue_push_item', '_dispatch_queue_get_head', '_dispatch_queue_pop_head'], 'REAL interleavings: 2 producers (real _dispatch_queue_push_item) x 1 drainer (real _dispatch_queue_get_head/_pop_head), context switch before every atomic access, 3 rounds x 3 threads x <=12 steps',
       defines=['-DNITEMS=2'], stubs=['_dispatch_wait_for_enqueuer'], blocking=['_dispatch_wait_for_enqueuer']),
 ]
+# tier Q kernel 'real _dispatch_queue_wakeup(MAKE_DIRTY) x real _dispatch_queue_drain_try_unlock' (experiments/h_wakeup_q_tierQ.c) is NOT registered: _dispatch_queue_wakeup in resumable form
+# (barrier-complete, override and reference paths) runs cbmc out of 24 GB even as a 2-thread, 2-function kernel (three variants measured); the race stays covered by the tier-S pair S_wakeup_make_dirty / S_drain_try_unlock
 ASSUMPTIONS = ['thread pool lemma: pthread_create and the mediator semaphore are counting stubs; the workqueue monitor (_dispatch_workq_monitor_pools, /proc parsing) is not covered',
   'tier S: one call of one real state-machine function from an arbitrary 64-bit state word (restricted only by the caller contract: what the calling owner holds) and arbitrary width in [1,4094]; at most 2 interfering replacements of the word by other threads',
                'kevent-workloop role (BASE_WLH) excluded: not compiled on this platform',
